@@ -29,13 +29,21 @@ def run_group(ck, pid, init, want, cover):
     tla_sets = "{" + ", ".join("{" + ", ".join('"%s"' % d for d in ds) + "}" for ds in devsets) + "}"
     open(wrapper, "w").write("---- MODULE %s ----\nEXTENDS MC_ContentInterp\nTheInit == %s\nTheDevs == %s\n"
                              "EmitForms == TRUE\n====\n" % (mod, init, tla_sets))
-    cfg = write_cfg(os.path.join(ck.tmp, mod + ".cfg"), constants={"Forms": "<- FormDefs", "DevChoices": "<- TheDevs"},
+    mixed = init.startswith("InitMixed")
+    cfg = write_cfg(os.path.join(ck.tmp, mod + ".cfg"),
+                    constants={"Forms": "<- FormDefs", "DevChoices": "<- TheDevs", "MixTokens": 60 if mixed else 0,
+                               "MixPool": "<- MixPoolAll" if mixed else "<- NoPool"},
                     init="TheInit", next="Next", invariants=["DevCtmInSync", "NoError"],
                     properties=["NoResidue", "QRestores", "FormTransparent", "BadOperandsFrame", "FrameOK"], constraints=["EmitTerminal"])
     emit = os.path.join(ck.tmp, mod + ".ndjson")
     # (TLC's -coverage is pathologically slow on this spec's recursive operators; vacuity is guarded by counting, below,
     #  which operators the enumerated programs actually execute)
-    res = run_tlc(wrapper, cfg, emit=emit, coverage=False, timeout=3600, lib=os.path.join(SPECS, "interp"))
+    if mixed:
+        # long programs mixing all operator groups: random behaviours (tlc -simulate), seeded by VERIF_SEED
+        res = run_tlc(wrapper, cfg, emit=emit, coverage=False, timeout=1500, lib=os.path.join(SPECS, "interp"),
+                      simulate={"num": 1500 if ck.tier == "thorough" else 150}, depth=400, seed=ck.seed + 1, workers=8)
+    else:
+        res = run_tlc(wrapper, cfg, emit=emit, coverage=False, timeout=3600, lib=os.path.join(SPECS, "interp"))
     ck.add_tlc(res, init)
     if not res.ok:
         raise MachineryError("ContentInterp.tla violates %s on the intended design (%s):\n%s" % (res.violated, init, res.error_text[:3000]))
@@ -45,7 +53,10 @@ def run_group(ck, pid, init, want, cover):
         key = json.dumps(r["prog"], sort_keys=True)
         byprog.setdefault(key, {})[",".join(sorted(r["dev"]))] = r
     os.remove(emit)
-    if not byprog or sum(len(v) for v in byprog.values()) != res.emitted:
+    if mixed:
+        # a simulated behaviour may be emitted more than once (terminal state re-evaluated): keep one per program
+        pass
+    elif not byprog or sum(len(v) for v in byprog.values()) != res.emitted:
         raise MachineryError("emitted %d records, grouped %d" % (res.emitted, sum(len(v) for v in byprog.values())))
     forms = FORMS
     keys = list(byprog)
